@@ -170,8 +170,13 @@ def _ipc_stream_size_ok(tree: ast.Module, site: str) -> None:
         if n not in src:
             raise TranslationBroken(site, f"_ipc_stream_size lacks `{n}`: not the counting serialisation the model assumes")
     rets = [n for n in ast.walk(fn) if isinstance(n, ast.Return)]
-    if len(rets) != 1 or not ast.unparse(rets[0].value).endswith(".size()"):
-        raise TranslationBroken(site, "_ipc_stream_size must return <sink>.size() once")
+    if "sink = pa.MockOutputStream()" not in src or "new_ipc_stream(sink, schema)" not in src:
+        raise TranslationBroken(site, "_ipc_stream_size does not write into `sink = pa.MockOutputStream()`")
+    if len(rets) != 1 or ast.unparse(rets[0].value) not in ("sink.size()", "int(sink.size())"):
+        raise TranslationBroken(site, "_ipc_stream_size must return sink.size() once")
+    loops = [n for n in ast.walk(fn) if isinstance(n, ast.For)]
+    if len(loops) != 1 or ast.unparse(loops[0].iter) != "batches" or len(_calls(loops[0], "writer.write_batch")) != 2:
+        raise TranslationBroken(site, "_ipc_stream_size does not write every batch of `batches` (with / without metadata)")
 
 
 def _predict(tree: ast.Module, name: str, collector: bool, site: str) -> tuple[str, str]:
